@@ -601,4 +601,88 @@ func init() {
 	}
 }
 
+const hashmapPkg = repoModule + "/internal/hashmap"
+
+func init() {
+	registry["C15"] = func(tier string) []*Job {
+		var js []*Job
+		j := mk("c15.lemmas", hashmapPkg, "ZZ_C15_Lemmas", map[string]int{"canary": 0}, func(b *Bounds) { b.Unwind = 12 })
+		j.Prefer = "bits"
+		js = append(js, j)
+		j = mk("c15.lemmas.canary", hashmapPkg, "ZZ_C15_Lemmas", map[string]int{"canary": 1}, func(b *Bounds) { b.Unwind = 12 })
+		j.Prefer = "bits"
+		j.Canary = "c15.lemma.canary"
+		js = append(js, j)
+		chains := []int{3, 6}
+		if tier == "thorough" {
+			chains = []int{2, 5, 6, 7}
+		}
+		for _, n := range chains {
+			for _, st := range []int{0, 1} {
+				if st == 0 && n > 3 && tier == "quick" {
+					continue
+				}
+				j := mk(sprintf("c15.chain.keys%d.sametag%d", n, st), hashmapPkg, "ZZ_C15_Chain", map[string]int{"keys": n, "sametag": st, "canary": 0},
+					func(b *Bounds) { b.Unwind = 40; b.MaxPaths = 2000000; b.MaxWallS = 2400 })
+				j.Prefer = "bits"
+				js = append(js, j)
+			}
+		}
+		for _, size := range []int{0, 161, 1000} {
+			js = append(js, mk(sprintf("c15.resize.size%d", size), hashmapPkg, "ZZ_C15_Resize", map[string]int{"size": size}, func(b *Bounds) { b.Unwind = 140 }))
+		}
+		pre := 2
+		if tier == "thorough" {
+			pre = 3
+		}
+		for sc := 0; sc <= 3; sc++ {
+			p := pre
+			if sc == 2 {
+				p = pre - 1
+			}
+			js = append(js, mk(sprintf("c15.par.scenario%d.pre%d", sc, p), hashmapPkg, "ZZ_C15_Par", map[string]int{"scenario": sc, "prefill": 5, "canary": 0},
+				func(b *Bounds) { b.Unwind = 140; b.Preempt = p; b.Race = true; b.MaxPaths = 8000000; b.MaxWallS = 3000 }))
+		}
+		c := mk("c15.par.canary", hashmapPkg, "ZZ_C15_Par", map[string]int{"scenario": 1, "prefill": 5, "canary": 1}, func(b *Bounds) { b.Unwind = 140; b.Preempt = 0; b.Race = true })
+		c.Canary = "c15.par.canary"
+		return append(js, c)
+	}
+}
+
+func init() {
+	gen := func(prop string, fn string, pn int) jobGen {
+		return func(tier string) []*Job {
+			cfgs := []seqCfg{{"bs_max1", 0, 0, 1, 1}, {"bs_max2", 0, 0, 1, 2}, {"bw_w3", 0, 0, 2, 3}}
+			if tier == "thorough" {
+				cfgs = append(cfgs, seqCfg{"bs_max3", 0, 0, 1, 3}, seqCfg{"bw_w100", 0, 0, 2, 100}, seqCfg{"bse_writing_max2", 2, 0, 1, 2}, seqCfg{"bw_w10", 0, 0, 2, 10})
+			}
+			var js []*Job
+			for _, c := range cfgs {
+				p := with(cfgParams(c.exp, c.ref, c.bound, c.max, 0, 0), "steps", 1)
+				js = append(js, mk(sprintf("%s.sync.%s", prop, c.name), rootPkg, fn, p, func(b *Bounds) { b.Unwind = 70; b.MaxPaths = 800000; b.MaxWallS = 1800 }))
+			}
+			if tier == "thorough" {
+				for _, c := range []seqCfg{{"bs_max1.s2", 0, 0, 1, 1}, {"bs_max2.s2", 0, 0, 1, 2}} {
+					p := with(cfgParams(c.exp, c.ref, c.bound, c.max, 0, 0), "steps", 2)
+					js = append(js, mk(sprintf("%s.sync.%s", prop, c.name), rootPkg, fn, p, func(b *Bounds) { b.Unwind = 70; b.MaxPaths = 2000000; b.MaxWallS = 2400 }))
+				}
+			}
+			pre := 1
+			if tier == "thorough" {
+				pre = 2
+			}
+			for _, w := range []int{0, 1} {
+				js = append(js, mk(sprintf("%s.par.weighted%d.pre%d", prop, w, pre), rootPkg, "ZZ_C0405_Par",
+					map[string]int{"prop": pn, "weighted": w, "max": 2, "pre": 1},
+					func(b *Bounds) { b.Unwind = 140; b.Preempt = pre; b.Race = true; b.MaxPaths = 8000000; b.MaxWallS = 3000 }))
+			}
+			c := mk(prop+".canary", rootPkg, fn, with(cfgParams(0, 0, 1, 2, 0, 0), "steps", 1, "canary", 1), func(b *Bounds) { b.Unwind = 70 })
+			c.Canary = prop + ".canary"
+			return append(js, c)
+		}
+	}
+	registry["C04"] = gen("c04", "ZZ_C04_Sync", 4)
+	registry["C05"] = gen("c05", "ZZ_C05_Sync", 5)
+}
+
 func sprintf(f string, a ...interface{}) string { return fmt.Sprintf(f, a...) }
